@@ -22,9 +22,12 @@
 name: spifopt_parse.compaction
 define: U_COMPACT
 src: options.c
+native: options
+native_includes: options.c
 enforce: spifopt_parse
 replace: find_long_option, find_short_option, handle_arglist
 giflags: --restrict-function-pointer spifopt_parse.function_pointer_call.1/vopt_help --restrict-function-pointer spifopt_parse.function_pointer_call.2/vopt_abstract --restrict-function-pointer handle_integer.function_pointer_call.1/vopt_help
+objbits: 10
 backend: sat
 loops: 1
 timeout: 300
